@@ -160,7 +160,8 @@ def judge_batch(prop, reqs, out_lines, build_name, st, max_viol=25):
             st.errors.append("oracle exception on %r / %r: %s" % (req, line, traceback.format_exc()[-800:]))
             continue
         st.evaluations += 1
-        st.outcomes[resp.kind] = st.outcomes.get(resp.kind, 0) + 1
+        okind = resp.kind if len(resp.kind) <= 6 else resp.kind[0]
+        st.outcomes[okind] = st.outcomes.get(okind, 0) + 1
         st.labels[label] = st.labels.get(label, 0) + 1
         st.per_build[build_name] = st.per_build.get(build_name, 0) + 1
         st.per_mode[mode] = st.per_mode.get(mode, 0) + 1
